@@ -68,6 +68,55 @@ class FullGen:
             return ["scat", self.g.string(dep, plain=True), ["fn", "STR$", [self.g.num(0)]]]
         return self.g.string(dep)
 
+    def conv_call(self):
+        """A single call of a function the tool turns into a procedure call (numeric result)."""
+        g = self.g
+        g.n_conv += 1
+        r = self.d(st.integers(0, 3))
+        if r == 0:
+            return ["fn", "INT", [g.num(self.d(st.integers(0, 1)))]]
+        if r == 1:
+            return ["fn", "VAL", [["str", self.d(st.sampled_from(["12", "3.5", "7"]))]]]
+        if r == 2:
+            return ["fn", "INSTR", [["num", "1", 1], g.string(0, plain=True), ["str", self.d(st.sampled_from(["A", "B"]))]]]
+        return ["fn", "INT", [["bin", "/", g.num_leaf(), ["num", "2", 2]]]]
+
+    def unary_operand(self):
+        """An operand that *starts* with a unary operator and holds a convertible call (or a plain leaf)."""
+        g = self.g
+        inner = self.conv_call() if g.conv_ok() else g.num_leaf()
+        if self.d(st.booleans()):
+            return ["neg", inner]
+        if inner[0] == "fn" and inner[1] == "INT":
+            return ["not", ["fn", "INT", [g.int_leaf()]]]
+        return ["neg", inner]
+
+    def tail_let(self):
+        """Assignment whose text ends in a chosen token class (literal spellings, hex, variable, call) or whose whole right-hand side
+        is one convertible call - with and without the LET keyword.  Placed before ':', ELSE, a comment and the end of the line."""
+        g = self.g
+        self.kinds.add("tail_let")
+        let = self.d(st.booleans())
+        r = self.d(st.integers(0, 7))
+        if r < 2 and g.conv_ok():
+            self.kinds.add("let_whole_rhs_call" if let else "whole_rhs_call")
+            if self.d(st.integers(0, 3)) == 0 and g.strings:
+                g.n_conv += 1
+                f = self.d(st.sampled_from(["STR$", "HEX$", "STRING$"]))
+                call = {"STR$": ["fn", "STR$", [g.num_leaf()]], "HEX$": ["fn", "HEX$", [["num", "255", 255]]],
+                        "STRING$": ["fn", "STRING$", [["num", "3", 3], ["str", "*"]]]}[f]
+                return ["let", g.str_target(), call, let]
+            return ["let", g.num_target(), self.conv_call(), let]
+        if r < 5:
+            tail = g.num_lit()
+        elif r < 6:
+            tail = g.hex_lit()
+        else:
+            tail = g.num_leaf()
+        if self.d(st.booleans()):
+            return ["let", g.num_target(), tail, let]
+        return ["let", g.num_target(), ["bin", self.d(st.sampled_from(["+", "-", "*"])), g.num(self.d(st.integers(0, 1))), tail], let]
+
     def first_operand(self):
         """Optional operand of CLS/HSCREEN/HCLS: the tool drops one that starts with a unary operator (open finding)."""
         x = self.e()
@@ -154,9 +203,15 @@ class FullGen:
             items = [["e", ["str", "A="]], ["e", ["neg", self.g.num_leaf()] if self.d(st.booleans()) else ["not", self.g.int_leaf()]], ["e", ["str", "B"]]]
             self.kinds.add("print_juxtaposition_after_unary")
         for i in range(n):
-            r = self.d(st.integers(0, 5))
+            r = self.d(st.integers(0, 6))
             if r < 2:
                 items.append(["s", self.d(st.sampled_from([";", ","]))])
+            elif r == 6 and self.d(st.booleans()):
+                self.kinds.add("print_unary_operand")
+                items.append(["e", self.unary_operand()])
+            elif r == 6:
+                self.kinds.add("print_tab")
+                items.append(["e", ["fn", "TAB", [self.e()]]])
             else:
                 items.append(["e", self.e() if self.d(st.booleans()) else self.es()])
                 if self.d(st.booleans()) and i < n - 1:
@@ -193,7 +248,7 @@ class FullGen:
             elif r < 5:
                 items.append(["q", self.d(st.sampled_from(["", "A", "A B", " X ", "HELLO, WORLD", "RUN x", "a:b"]))])
             elif r < 7:
-                items.append(["u", self.d(st.sampled_from(["ABC", "A B", "X  ", "HELLO WORLD", "RED", "Z9 "]))])
+                items.append(["u", self.d(st.sampled_from(["ABC", "A B", "X  ", "HELLO WORLD", "RED", "Z9 ", "DON'T", "IT'S RUN ecb_play", "'Q"]))])
             elif r < 8:
                 items.append(["h", self.d(st.sampled_from(cbgen.HEX_SPELLINGS))])
             else:
@@ -215,7 +270,9 @@ class FullGen:
         return t
 
     def misc(self):
-        r = self.d(st.integers(0, 13))
+        r = self.d(st.integers(0, 15))
+        if r >= 14:
+            return self.tail_let()
         g = self.g
         if r == 0:
             self.kinds.add("read")
@@ -248,6 +305,34 @@ class FullGen:
             return self.print_stmt()
         self.kinds.add("num_assign")
         return ["let", g.num_target(), g.num(2), False]
+
+
+def add_layout(draw, case, switches, key="source", one_in=3):
+    """One case in `one_in` carries its program text in a layout drawn boundary by boundary (0-2 blanks, ?/PRINT, line ends, empty
+    lines, NUL, blanks inside literals) instead of the canonical one.  C08 says the layout cannot matter, so every oracle stays valid;
+    what changes is which spellings of each construct reach the translator."""
+    if draw(st.integers(1, one_in)) != 1:
+        return case
+    from vf.cb import render
+
+    L = render.DrawnLayout(draw, st)
+    case[key] = render.render(case["prog"], layout=L, paren_unary="paren_unary" in switches, canonical_clear="clear_canonical_layout" in switches)
+    case.setdefault("_meta", {})["drawn_layout"] = True
+    return case
+
+
+def _append_last(stmts, new):
+    """Append `new` as the very last statement of the line (inside the last branch of a trailing IF).  False when the line cannot take it."""
+    last = stmts[-1]
+    if last[0] == "if":
+        branch = last[3] if last[3] is not None else last[2]
+        if branch[0] != "stmts":
+            return False
+        return _append_last(branch[1], new)
+    if last[0] in ("rem", "data") or (last[0] == "let" and len(last) > 4):
+        return False
+    stmts.append(new)
+    return True
 
 
 @st.composite
@@ -351,7 +436,7 @@ def full_programs(draw, switches=frozenset(), max_lines=10, operand_depth=1, wit
                 c = g.cond(2)
                 form = draw(st.sampled_from(["plain", "line", "else", "elseline", "elseif", "line_elseif"]))
                 def one():
-                    s_ = fg.misc() if draw(st.booleans()) else fg.device()[0]
+                    s_ = fg.misc() if draw(st.booleans()) else (fg.device()[0] if draw(st.booleans()) else fg.tail_let())
                     if s_[0] in ("rem", "data"):  # REM / unquoted DATA would swallow a following ELSE
                         s_ = ["let", ["var", "B"], ["num", "2", 2], False]
                     return [s_]
@@ -388,6 +473,11 @@ def full_programs(draw, switches=frozenset(), max_lines=10, operand_depth=1, wit
         for q, s in enumerate(stmts[:-1]):
             if s[0] == "rem":
                 stmts[q] = ["let", ["var", "A"], ["num", "1", 1], False]
+        r_tail = draw(st.integers(0, 11))
+        if r_tail == 0 and g.strings and _append_last(stmts, ["let", g.str_target(), ["str", draw(st.sampled_from(["OPEN", "A B ", "", "x", "IT'S"]))], draw(st.booleans()), "open"]):
+            fg.kinds.add("open_string_literal")
+        elif r_tail == 1 and _append_last(stmts, ["rem", draw(st.sampled_from([" note", "", " a:b", " IT'S"])), "'", "nocolon"]):
+            fg.kinds.add("apostrophe_comment_without_colon")
         lines.append([ln, stmts])
     # a READ somewhere + an empty DATA item switches on the tool's READ/DATA patching (string temporaries, ecb_read_filter)
     if "read" in fg.kinds and draw(st.booleans()):
